@@ -414,7 +414,7 @@ V({
 # --------------------------------------------------------------------------- V9
 V({
     "id": "V9",
-    "title": "lifetime_variance: Unifier::{push_lifetime_outlives_goals, unify_lifetime_var, relate_alias_ty}, Variance::{xform, invert}, UniverseIndex::{can_see, root}",
+    "title": "lifetime_variance: Unifier::{push_lifetime_outlives_goals, unify_lifetime_var, relate_alias_ty, generalize_lifetime, generalize_const}, Variance::{xform, invert}, UniverseIndex::{can_see, root}",
     "template": "v9_lifetime_variance.rs",
     "assumptions": [
         "V9: ena: unify_var_var on two unbound variables and unify_var_value on an unbound variable cannot fail and have the stated effect on the table view; universe_of_unbound_var reads the table",
